@@ -98,16 +98,20 @@ def fam_retry(rnd, n, overrun=True, checks=True):
     """Attempt scripts: every script over {ok,tr,perm,wrongtype,(overrun)} of length <= retries+1
     for retries 0..2, for a sequence action and for check actions running in parallel."""
     res = []
-    alpha = ["ok", "tr", "perm", "wrongtype", "wrongtr"]
+    # wrongptr / permwrap / trwrap are concrete variants of wrongtype / perm / tr (a pointer to the declared response
+    # type; a permanent error wrapping a retryable cause; a retryable error wrapping a permanent cause)
+    alpha = ["ok", "tr", "perm", "wrongtype", "wrongtr", "wrongptr", "permwrap", "trwrap"]
     scripts = []
     for r in (0, 1, 2):
         for L in range(1, r + 2):
             for s in itertools.product(alpha, repeat=L):
                 # a script is realisable if only its last element is final or it uses the whole budget
-                if all(x == "tr" for x in s[:-1]) and (s[-1] != "tr" or L == r + 1):
+                if all(x in ("tr", "trwrap") for x in s[:-1]) and (s[-1] not in ("tr", "trwrap") or L == r + 1):
                     scripts.append((r, list(s)))
     rnd.shuffle(scripts)
-    for r, s in scripts[:n]:
+    # the concrete variants are always there, whatever the sample
+    must = [(1, ["permwrap"]), (2, ["trwrap", "permwrap"]), (0, ["wrongptr"]), (1, ["tr", "wrongptr"]), (1, ["trwrap", "ok"]), (2, ["trwrap", "trwrap", "trwrap"])]
+    for r, s in must + scripts[:n]:
         sh = shape([blk([2])], retries=r)
         res.append(scn(sh, "free", {"b1.s1.a1": s}, tag="retry-seq"))
         if checks:
@@ -525,6 +529,31 @@ def fam_crash_contfail(rnd, n):
         k = rnd.choice([1, 2, 3])      # passing runs before the failing one (the initial run passes)
         out = {"%s.cont.a1" % lvl: ["ok"] * k + ["perm"]}
         res.append(scn(sh, "free", out, lat=lat, crash="sample", crashmax=14, fn=False, tag="crash-contfail", contdelay=rnd.choice([300, 800]), latmax=100, waitms=8000))
+    return res
+
+
+def fam_crash_bypass(rnd, n):
+    """Every crash point of plans with a PASSING bypass group at plan level or at the first block, deferred checks
+    (and other groups) in the bypassed scope - which must stay untouched also in the resuming process - and, for a
+    bypassed block, a second block that runs or fails behind it."""
+    res = []
+    for i in range(n):
+        lvl = rnd.choice(["p", "b1", "b1"])
+        others = {g: 1 for g in ("pre", "post", "deferred") if rnd.random() < 0.6}
+        others["deferred"] = 1
+        pg, bg = {}, {}
+        if lvl == "p":
+            pg = dict(others, bypass=rnd.choice([1, 2]))
+        else:
+            bg = dict(others, bypass=rnd.choice([1, 2]))
+            if rnd.random() < 0.6:
+                pg["deferred"] = 1
+        blocks = [blk([1], 1, 0, g=bg), blk([rnd.choice([1, 2])], 1, 0, g=({"deferred": 1} if rnd.random() < 0.4 else {}))]
+        out = {}
+        if lvl == "b1" and rnd.random() < 0.6:
+            out["b2.s1.a1"] = ["perm"]
+        sh = shape(blocks, pg=pg)
+        res.append(scn(sh, "free", out, crash="all", crashmax=40, fn=True, tag="crash-bypass", latmax=100, waitms=5000))
     return res
 
 
